@@ -1,6 +1,8 @@
 import SC.Properties.C04
 import SC.Proofs.SrcCompare
 import SC.Proofs.SrcCompareB2
+import SC.Proofs.SrcNames
+import SC.Proofs.SrcNamesB
 /-!
 # C04 — source-level theorems
 
@@ -22,7 +24,7 @@ open Utf8
 theorem source_compare (s t : Bytes) (r0 o0 r1 o1 : Nat) (h : GoSsa.Heap)
     (hls : s.length < 4611686018427387904) (hlt : t.length < 4611686018427387904) :
     GoSsa.Ret Gen.Src.str false Gen.Src.str_Compare [.str s r0 o0, .str t r1 o1] h [.int (S.compare s t)] h := by
-  have := GoSsa.Str.Compare s t r0 o0 r1 o1 h hls hlt
+  have := GoSsa.Str.Compare Gen.Src.str GoSsa.Str.find_clamp s t r0 o0 r1 o1 h hls hlt
   rwa [compare_refines] at this
 
 /-- non-vacuity / a concrete instance: `"Straße"` against `"STRAẞE"` (ß U+00DF / ẞ U+1E9E, different widths) compare equal -/
@@ -32,6 +34,6 @@ example : S.compare [0x53, 0x74, 0x72, 0x61, 0xC3, 0x9F, 0x65] [0x53, 0x54, 0x52
 theorem source_compare_bytcase (s t : Bytes) (r0 o0 r1 o1 : Nat) (h : GoSsa.Heap)
     (hls : s.length < 4611686018427387904) (hlt : t.length < 4611686018427387904) :
     GoSsa.Ret Gen.Src.byt true Gen.Src.byt_Compare [.str s r0 o0, .str t r1 o1] h [.int (S.compare s t)] h := by
-  have := GoSsa.Byt.Compare s t r0 o0 r1 o1 h hls hlt
+  have := GoSsa.Byt.Compare Gen.Src.byt GoSsa.Byt.find_clamp s t r0 o0 r1 o1 h hls hlt
   rwa [compare_refines] at this
 end C04
